@@ -130,6 +130,20 @@ def writeP (s : EncState) (m : Method) (outerLen : Nat) (payload : List UInt8) :
     check (decide (s'.cur ≤ s'.maxChunk)) .encoder (if m = .borrow then 144 else 155)
     pure (s', [⟨.append payload, m⟩])
 
+/-- `if self.maybe_mid_stuff { self.write_partial_stuff_sequence(iovec); assert!(cur < max); }`
+(encoder.rs:185-190). -/
+def flushIfMidP (s : EncState) : PRes (EncState × List Emit) :=
+  if s.mid then do
+    let r ← flushP s
+    -- assert!(self.current_chunk_size < self.max_chunk_size.get())
+    check (decide (r.1.cur < r.1.maxChunk)) .encoder 189
+    pure r
+  else pure (s, [])
+
+/-- `if self.maybe_mid_stuff { self.write_partial_stuff_sequence(iovec); }` (encoder.rs:117-119). -/
+def flushAtEndP (s : EncState) : PRes (EncState × List Emit) :=
+  if s.mid then flushP s else pure (s, [])
+
 /-- `encode_header` on the current placeholder, then `Self::new_subsequent`
 (encoder.rs:227-228).  `pre` = what this call has emitted so far. -/
 def closeP (p : Params) (s : EncState) (nid : Nat) (q : Pipe) (pre : List Emit) (consumed : Nat) :
@@ -154,12 +168,7 @@ def consumeOnceP (p : Params) (s : EncState) (nid : Nat) (m : Method) (q : Pipe)
   else do
     -- assert!(self.current_chunk_size < self.max_chunk_size.get())
     check (decide (s.cur < s.maxChunk)) .encoder 183
-    let (s1, e1) ← (if s.mid then do
-        let r ← flushP s
-        -- assert!(self.current_chunk_size < self.max_chunk_size.get())
-        check (decide (r.1.cur < r.1.maxChunk)) .encoder 189
-        pure r
-      else pure (s, []))
+    let (s1, e1) ← flushIfMidP s
     -- let remaining = self.max_chunk_size.get() - self.current_chunk_size;
     check (decide (s1.cur ≤ s1.maxChunk)) .encoder 192
     let remaining := s1.maxChunk - s1.cur
@@ -215,7 +224,7 @@ def feedAllP (p : Params) (s : EncState) (nid : Nat) (m : Method) (q : Pipe) (in
 
 /-- `terminate` (encoder.rs:116-123). -/
 def finishP (p : Params) (s : EncState) (q : Pipe) : PRes (List Emit) := do
-  let (s1, e1) ← (if s.mid then flushP s else pure (s, []))
+  let (s1, e1) ← flushAtEndP s
   -- assert!(self.current_chunk_size < self.max_chunk_size.get())
   check (decide (s1.cur < s1.maxChunk)) .encoder 121
   let e ← encodeHeaderP p s1 (runQ q e1)
